@@ -98,7 +98,12 @@ def profiles_for(pid, tier):
                 ("shared-ids", dict(base, apps=["a", "b"], shared_mailbox_ids=True, client_mailboxes=["m1", "m2"], w_add=16,
                                     w_open=14, w_claim=2, w_allocate=0), N(80, 600))],
         "C03": [("general", dict(three, w_claim=16, w_release=8, w_close=8, w_restart=2, w_sweep=3, names=["1", "2", "7"]), N(200, 2000)),
-                ("late-claim", dict(_special="late-claim"), N(30, 200))],
+                ("late-claim", dict(_special="late-claim"), N(30, 200)),
+                # one name, two or three sides, frequent restarts: whatever a command left uncommitted is lost at the
+                # restart, and the claims that follow must still agree with the history
+                ("small-restart", dict(base, n_ops=26, apps=["a"], sides=["s1", "s2", "s3"], names=["1"], client_mailboxes=["m1"],
+                                       w_claim=16, w_release=16, w_restart=12, w_reconnect=8, w_connect=8, w_allocate=0, w_open=2,
+                                       w_add=1, w_close=3, w_sweep=1, w_malformed=0, w_bigjump=0), N(240, 2000))],
         "C04": [("general", dict(three, w_allocate=14, w_claim=8, w_release=8, names=["1", "2", "3", "03", "٣", "12", "x", "²", "①", "4²", " 5", "+6"],
                                  w_sweep=2), N(160, 1500)),
                 ("fill", dict(_special="fill"), N(24, 120)),
@@ -161,7 +166,11 @@ def profiles_for(pid, tier):
                 ("float-times", dict(_special="float-times"), N(60, 600)),
                 ("crowded-expiry", dict(base, usage=True, blur="rand", apps=["a"], sides=["s1", "s2", "s3", "s4"], names=["1"],
                                         client_mailboxes=["m1"], w_open=14, w_claim=12, w_close=8, w_add=4, w_release=4, quiesce=True),
-                 N(80, 600))],
+                 N(80, 600)),
+                # a crash between the two commits of a first claim leaves a mailbox without side rows; its record
+                # (written by the sweep that expires it) must be blurred like every other
+                ("crash-blur", dict(base, usage=True, blur="rand", w_crash=9, w_claim=14, w_allocate=6, w_sweep=5, w_bigjump=4,
+                                    quiesce=True), N(80, 600))],
         "C17": [("malformed", dict(three, w_malformed=14), N(200, 2000)),
                 ("odd-strings", dict(base, apps=["a", "", "ü"], sides=["s1", "", "s\u0000x"], names=["1", "", "ñ", "²", "①"], w_allocate=8,
                                      client_mailboxes=["m1", ""], w_malformed=8), N(80, 600)),
